@@ -75,6 +75,21 @@ CHECKS = {
          "Every sequence up to the tier's depth; pages are compared for every limit/offset incl. 0, MAX and MAX+1.",
          "Pointer after invalidation is judged on mdk-core histories (E1), not on raw storage sequences.",
          "3/C18"),
+ "C06": ("E5 shapes + adversary toolkit", "exploration",
+         "exhaustive enumeration of mutation families (outer wrapper fields, every k-th truncation / byte change of the NIP-44 content and of the MLS payload re-encrypted under the right exporter secret, malformed application payloads, valid proposals of ignored kinds, welcome and key-package tag mutations, 40-string menu x every uniffi string argument) x receiver states; oracle: no panic, refusal leaves every group's fingerprint unchanged",
+         "Every case of the enumerated families is delivered to every receiver state on the real client (k = 1, i.e. every byte position, in the thorough tier).",
+         "Byte-change mutations use one replacement value per position; allocation-failure aborts are not isolated in a child process.",
+         "3/C06"),
+ "C15": ("E5 shapes", "exploration",
+         "exhaustive enumeration of the extension value domain (~45 000 values) through the real codec, every prefix truncation / suffix / wrong fixed length of a valid encoding, every single-field mutation of key-package events, welcome rumors and imeta tags through the public parse functions",
+         "The complete stated domain is enumerated; the harness's own raw TLS encoder is first checked byte-for-byte against the code's encoder.",
+         "Name/description domain is 7 representative strings; relay and admin counts <= 3.",
+         "3/C15"),
+ "C17": ("E5 shapes + scripted histories", "exploration",
+         "exhaustive single-bit tamper of ciphertext and nonce for every payload size <= 65 B, single-field changes of the media reference, pairwise key comparison over a product of (file, name, type, group), group-image v1/v2 with every bit of ciphertext / nonce / seed flipped, and decryption 0..k epochs later with the announcing message processed after every possible number of intervening commits",
+         "Every tamper case must fail; every round-trip case must return the same bytes.",
+         "Cryptographic strength of ChaCha20-Poly1305 / HKDF is assumed; large payloads are tampered at a few positions only.",
+         "3/C17"),
 }
 
 PENDING_REASON = "check not built yet in this revision (see DESIGN.md section 7 build order); will be claimed when its engine lands"
